@@ -628,6 +628,26 @@ def run_c10(chk):
             expect = core.parallel([(lambda k=k, n=n: L.solo_fresh_interpreter(k, n)) for k, n in (('stat_s', 'S0'), ('stat_n', 'N1'), ('stat_n', 'N2'))], max_workers=3)
             reqs, apps = [seq], [a]
             flat = True
+        elif arr == 'module_helpers':
+            # ombott.redirect() called by a handler of an application that is not the default one: on a thread the default
+            # application never served on, and again after the default application answered there with headers of its own.
+            # The expected redirect is stated outright (the handler's own header and cookie, nothing else), not taken from a run.
+            d = ombott.app
+            if not getattr(d, '_verif_routes', False):
+                L.make_app(app=d)
+                d._verif_routes = True
+
+            def exp_redir(n):
+                return [1, '303 See Other', sorted([['Content-Length', '0'], ['Content-Type', 'text/html; charset=UTF-8'],
+                                                    ['Location', 'http://host-%s.example/next/%s' % (n, n)],
+                                                    ['Set-Cookie', 'own=%s' % n], ['X-Own', n]]), '']
+            e_d = solo('hdrs', 'D1')
+            seq = [(lambda: L.serve(a, L.environ_for('redir', 'R0'))), (lambda: L.serve(d, L.environ_for('hdrs', 'D1'))),
+                   (lambda: L.serve(a, L.environ_for('redir', 'R1'))), (lambda: L.serve(d, L.environ_for('nf', 'D2'))),
+                   (lambda: L.serve(b, L.environ_for('redir', 'R2')))]
+            expect = [exp_redir('R0'), e_d, exp_redir('R1'), solo('nf', 'D2'), exp_redir('R2')]
+            reqs, apps = [seq], [a]
+            flat = True
         elif arr == 'lazy_drain':
             # the server drains a's streamed body only after b (or the default application) has served a request on the same thread
             other = b if rng.random() < 0.5 else ombott.app
@@ -668,7 +688,7 @@ def run_c10(chk):
             raise core.MachineryError(arr)
         res, tr, taken = L.run_threads(apps, reqs, sched, acc if acc.ok else None)
         ok = []
-        if arr in ('alternate', 'create_between', 'listener', 'status_table', 'shared_environ', 'custom_errors_map', 'custom404'):
+        if arr in ('alternate', 'create_between', 'listener', 'status_table', 'shared_environ', 'custom_errors_map', 'custom404', 'module_helpers'):
             ok = [expect[i] is None or res[0][i] == expect[i] for i in range(len(expect))]
         elif arr == 'lazy_drain':
             got_a, got_mid = res[0][0]
@@ -708,6 +728,7 @@ def run_c10(chk):
     run_arr('listener', [])
     run_arr('shared_environ', [])
     run_arr('custom404', [])
+    run_arr('module_helpers', [])
     run_arr('custom_errors_map', [])          # last of the one-shot arrangements: it may change process-wide defaults for good
     run_arr.force_stream = True          # a streamed body (drained at once) right after the other application served
     run_arr('alternate', [])
